@@ -8,7 +8,10 @@ The unchanged code does not satisfy it (`C04_view_fails_*` below: one `decide`d 
 theorem in force is `C04_view_partial`, under the decidable hypothesis `H` (`Spec/Overlay.lean`) whose clauses are
 exactly the class predicates of the known findings plus well-formedness of a single tar:
   * `freshB`          — finding 29 (a whiteout or file for a path created earlier in the same tar is dropped; a directory's
-                        own entry after its contents is honoured since fix ac5627f0) / duplicate names
+                        own entry after its contents is honoured since fix ac5627f0) / finding C04/same-layer-duplicate-first-wins
+                        (a member name listed twice: the first entry counts, a tar extraction leaves the last; witness
+                        `C04_view_fails_duplicate`; the stream judges these views against the overlay of the tars with the
+                        repeats left out, `dedupFirst`, wherever `H` holds for that reading — no theorem for that step)
   * `noUnderBlocker`  — finding 30 (whiteout + re-creation in one tar) / entries below a non-directory
   * `noOpaque`        — finding 12 (opaque whiteouts hide nothing)
   * `noRecreateAt`    — finding 10 (deleted, re-created later, lower children reappear)
@@ -19,6 +22,9 @@ Audit-1 notes.
   model (`Model/Unpack.lean`) and this model share no lemma.  It is a run-time comparison in the C04 stream (field
   `squash=` of c04gen: `unpack.UnpackSquashed` of the same image vs the final view, judged where `H` holds and the image
   has no links/fifos); two classes where it fails are recorded findings (C04/squash-*).
+* Audit-2: the requirer clause is `C04_required_view` (declarative: `RequiredView`, `Needed`, `Reach` in
+  Spec/OverlayRequired.lean, which no longer mentions the model) with `C04_required_unique`; `C04_required` (model =
+  executable specification) is proved through `mem_chase_iff_Reach`, not `rfl`.
 * `H` is sufficient, not necessary: `noRecreateAt` and `noImplicitOverExplicitAt` are syntactic over-approximations of
   their defect classes (they ignore an intervening deletion); for the opaque marker there is only the negative theorem
   `C04_view_fails_opaque` — the code has no opaque handling to prove anything positive about.  The evidence reports how
@@ -35,6 +41,7 @@ import Scalibr.Proofs.OverlayLoad
 import Scalibr.Model.OverlayImage
 import Scalibr.Proofs.OverlayImage
 import Scalibr.Spec.OverlayRequired
+import Scalibr.Proofs.OverlayRequired
 namespace Scalibr.Overlay
 
 /-- **C04, partial form.** For every image, view `j` and path: when `H` holds for the layers of the view, what the
@@ -175,13 +182,87 @@ theorem C04_walk_partial (layers : List Layer) (j : Nat) (h : H layers j = true)
 
 /-! ### the requirer (final view) -/
 
-/-- **Restriction to required files changes nothing except that non-required files are absent**: the pruned final view
-is the unrestricted one minus the (non-whiteout) files and symlinks that are neither required nor the target of a
-required symlink; every directory, and every node that stays, is untouched.  For every tree, requirer and universe. -/
+/-- **Restriction to required files changes nothing except that non-required files are absent**: the view the loader
+model prunes (`pruneFinal`: marks the paths listed by walking every required link, `neededSet`/`chase`) is the view the
+specification describes (`specRequired`, Spec/OverlayRequired.lean: keeps a node when it is a directory, a whiteout
+record or `neededB`, a yes/no test that lists nothing).  For every tree, requirer, depth and universe.  The content is
+`mem_chase_iff_Reach`: the list built by the model's walk holds exactly the paths the relation `Reach` names. -/
 theorem C04_required (U : List Path) (req : Path → Bool) (depth : Nat) (t : Tree) :
-    pruneFinal U req depth t = specRequired U req depth t := rfl
+    pruneFinal U req depth t = specRequired U req depth t := by
+  apply Tree.ext'
+  intro q
+  show (match t.get q with
+        | some n => if n.kind = Kind.dir || n.wh || req q || (neededSet U t req depth).contains q then some n else none
+        | none => none) =
+       (match t.get q with
+        | some n => if n.kind == Kind.dir || n.wh || neededB U t req depth q then some n else none
+        | none => none)
+  cases t.get q with
+  | none => rfl
+  | some n =>
+    dsimp only
+    rw [← keep_eq U t req depth q]
+    have e : (decide (n.kind = Kind.dir) || n.wh || req q || (neededSet U t req depth).contains q)
+        = ((n.kind == Kind.dir) || n.wh || (req q || (neededSet U t req depth).contains q)) := by
+      rw [Bool.or_assoc (decide (n.kind = Kind.dir) || n.wh)]
+      cases n.kind <;> rfl
+    rw [e]
 
-/-- the same, spelled out per path -/
+/-- **the clause as a statement about paths**: the pruned final view `r` of `t` has at `q` the node `t` has there, and
+has one exactly when that node is a directory, a whiteout record, or `q` is needed: required, or reached from a required
+symbolic link of `U` in at most `depth` hops (`Needed`, `Reach`: declarative, no walk, no list) -/
+theorem C04_required_view (U : List Path) (req : Path → Bool) (depth : Nat) (t : Tree) :
+    RequiredView U req depth t (pruneFinal U req depth t) := by
+  intro q n
+  rw [C04_required]
+  show (match t.get q with
+        | some n => if n.kind == Kind.dir || n.wh || neededB U t req depth q then some n else none
+        | none => none) = some n ↔ _
+  cases hg : t.get q with
+  | none => simp
+  | some m =>
+    dsimp only
+    have hk : (m.kind == Kind.dir || m.wh || neededB U t req depth q) = true ↔
+        (m.kind = Kind.dir ∨ m.wh = true ∨ Needed U t req depth q) := by
+      rw [Bool.or_eq_true, Bool.or_eq_true, beq_iff_eq, neededB_iff_Needed, or_assoc]
+    constructor
+    · intro h
+      split at h
+      · rename_i hc
+        cases h
+        exact ⟨rfl, hk.1 hc⟩
+      · cases h
+    · rintro ⟨he, hc⟩
+      cases he
+      rw [if_pos (hk.2 hc)]
+
+/-- a view is determined by `RequiredView`: the clause has one solution, the model's -/
+theorem C04_required_unique (U : List Path) (req : Path → Bool) (depth : Nat) (t r : Tree)
+    (h : RequiredView U req depth t r) : r = pruneFinal U req depth t := by
+  apply Tree.ext'
+  intro q
+  have hm := C04_required_view U req depth t
+  cases hr : r.get q with
+  | some n => exact ((hm q n).2 ((h q n).1 hr)).symm
+  | none =>
+    cases hp : (pruneFinal U req depth t).get q with
+    | none => rfl
+    | some n => rw [(h q n).2 ((hm q n).1 hp)] at hr; cases hr
+
+/-- the universe `U` only has to list the links: when it does, "needed" is the universe-free notion -/
+theorem C04_required_universe (U : List Path) (req : Path → Bool) (depth : Nat) (t : Tree) (q : Path)
+    (hU : ∀ s n, t.get s = some n → n.kind = .link → s ∈ U) :
+    Needed U t req depth q ↔ NeededAny t req depth q := by
+  unfold Needed NeededAny
+  constructor
+  · rintro (h | ⟨s, n, _, hl, hr⟩)
+    · exact Or.inl h
+    · exact Or.inr ⟨s, n, hl, hr⟩
+  · rintro (h | ⟨s, n, hl, hr⟩)
+    · exact Or.inl h
+    · exact Or.inr ⟨s, n, hU s n hl.1 hl.2.1, hl, hr⟩
+
+/-- the same, spelled out per path, on the model's own marking -/
 theorem C04_required_get (U : List Path) (req : Path → Bool) (depth : Nat) (t : Tree) (q : Path) :
     (pruneFinal U req depth t).get q =
       match t.get q with
@@ -238,6 +319,17 @@ theorem C04_view_fails_wh_recreate :
 def exImpl : List Layer := [[dE ["a"], fE ["a","x"]], [fE ["a","y"]]]
 theorem C04_view_fails_implicit_dir :
     obsOf ((viewOf exImpl 1).get ["a"]) ≠ obsOf ((specView exImpl 1).get ["a"]) := by decide
+
+/-- duplicate member names: `a/x` twice in the tar of layer 1; applying the tar leaves the second entry, the loader keeps
+the first (known finding C04/same-layer-duplicate-first-wins) -/
+def exDup : List Layer := [[dE ["a"], fE ["a","x"] 1], [dE ["a"], fE ["a","x"] 2, ⟨["a","x"], .file, false, 0o600, 2, 3, []⟩]]
+theorem C04_view_fails_duplicate :
+    obsOf ((viewOf exDup 1).get ["a","x"]) ≠ obsOf ((specView exDup 1).get ["a","x"]) := by decide
+
+/-- ... and what the loader shows there is the overlay of the tars with the repeated entry left out, for which `H` holds -/
+theorem C04_duplicate_first_wins_witness :
+    failingOf exDup 1 = ["ill-dup"] ∧ H (exDup.map (dedupFirst [])) 1 = true ∧
+    obsOf ((viewOf exDup 1).get ["a","x"]) = obsOf ((specView (exDup.map (dedupFirst [])) 1).get ["a","x"]) := by decide
 
 /-- the clauses of `H` each witness violates (29 and 30 necessarily overlap: both need a path mentioned twice in one tar) -/
 theorem C04_witness_classes :
